@@ -134,8 +134,8 @@ func main() {
 	rng := hx.Rng(a.Seed, "pl")
 	w := &world{kps: hx.Keys1024(), rng: rng, creds: map[string]*gabi.Credential{},
 		secrets: map[int]*big.Int{1: randBits(rng, 250), 2: randBits(rng, 250)},
-		ctx:     map[int]*big.Int{1: big.NewInt(1), 2: randBits(rng, 200)},
-		nonce:   map[int]*big.Int{1: randBits(rng, 80), 2: randBits(rng, 80)}}
+		ctx:     map[int]*big.Int{0: big.NewInt(0), 1: big.NewInt(1), 2: randBits(rng, 200)},
+		nonce:   map[int]*big.Int{0: big.NewInt(0), 1: randBits(rng, 80), 2: randBits(rng, 80)}}
 	// flipping one bit is the minimal change of context/nonce
 	if a.Seed%2 == 0 {
 		w.nonce[2] = big.Convert(new(gobig.Int).Xor(w.nonce[1].Go(), gobig.NewInt(1)))
